@@ -11,11 +11,15 @@ for sets and `hs= ro= fst=` for maps, because the harness runs all of them on th
   ts isbot                      -> bool
   tm merge <repr> <M>|<T>       M = k:v.v,k:-   -> <flag>/<map>/<tomb>
   tm state | tm perm <i,..> | tm isbot
+  ts cmp <L>|<T>                the current state against the state (L, T) (distinct items, L and T disjoint), on the backends
+                                that implement PartialOrd (hs, bt) -> <cmp>/<eq>/<cmp reversed>/<eq reversed>
+  tm cmp <M>|<T>                the same for maps (hs only; distinct keys, none of them in T)
   tb union <A>|<B> <q>          bare TombstoneSet backends: X=collect A, Y=collect B -> <X.union_with(Y)>/<X>/<len>/<contains q>/<collect A extend B>
 Lists are `-` when empty.  Anything else -> bad-op.
 C04: `lat ...` lines, see Driver/LatDrv.lean.
 -/
 import HvLatSpec.Model.Tombstone
+import HvLatSpec.Model.TombCmp
 import HvLatSpec.Driver.LatDrv
 import HvLatSpec.Driver.UfDrv
 open HvLatSpec
@@ -62,6 +66,26 @@ def showMap (m : List (Nat × List Nat)) : String :=
 def showTSet (s : TSet Nat) : String := s!"{showNats "," s.live}/{showNats "," s.tomb}"
 def showTMap (s : TMap Nat (List Nat)) : String := s!"{showMap s.map}/{showNats "," s.tomb}"
 
+def showOrd : Option Ordering → String
+  | some .lt => "lt"
+  | some .eq => "eq"
+  | some .gt => "gt"
+  | none => "none"
+
+def showOrdP : Option (Option Ordering) → String
+  | some o => showOrd o
+  | none => "panic"
+
+/-- a state a comparison line may name: no duplicates, live and tombstoned disjoint -/
+def okTSet (o : TSet Nat) : Bool :=
+  o.live.eraseDups.length == o.live.length && o.tomb.eraseDups.length == o.tomb.length &&
+    o.live.all (fun x => !o.tomb.contains x)
+
+def okTMap (o : TMap Nat (List Nat)) : Bool :=
+  let ks := o.map.map Prod.fst
+  ks.eraseDups.length == ks.length && o.tomb.eraseDups.length == o.tomb.length &&
+    ks.all (fun x => !o.tomb.contains x) && o.map.all (fun kv => kv.2.eraseDups.length == kv.2.length)
+
 def rep (tags : List String) (x : String) : String :=
   " ".intercalate (tags.map fun t => s!"{t}={x}")
 
@@ -98,6 +122,21 @@ def step (st : St) (line : String) : St × String :=
   | ["ts", "perm", p] =>
     match (parseNats "," p).bind (pickAll st.tsHist) with
     | some rs => (st, rep setTags (showTSet (TSet.mergeAll TSet.bot rs)))
+    | none => (st, "bad-op")
+  | ["ts", "cmp", r] =>
+    match parseTSet r with
+    | some o =>
+      if okTSet o then
+        (st, rep ["hs", "bt"] s!"{showOrd (TSet.cmp st.ts o)}/{showBool (TSet.eq st.ts o)}/{showOrd (TSet.cmp o st.ts)}/{showBool (TSet.eq o st.ts)}")
+      else (st, "bad-op")
+    | none => (st, "bad-op")
+  | ["tm", "cmp", r] =>
+    match parseTMap r with
+    | some o =>
+      if okTMap o then
+        let c := TMap.setCmpOps
+        (st, rep ["hs"] s!"{showOrdP (TMap.cmp c st.tm o)}/{showBool (TMap.eq c st.tm o)}/{showOrdP (TMap.cmp c o st.tm)}/{showBool (TMap.eq c o st.tm)}")
+      else (st, "bad-op")
     | none => (st, "bad-op")
   | ["tb", "union", r, q] =>
     match parseTSet r, q.toNat? with
